@@ -47,23 +47,12 @@ def _form(kind: int, lab: str):
     return {"survey": rows, "settings": [{"namespaces": "ex=http://example.org/x", "form_title": lab}], "entities": [{"dataset": "ds", "label": "a"}]}
 
 
-@ob(
-    "C14",
-    "b.regeneration",
-    timeout=400,
-    kernel=K[:5],
-    shims=("S1", "S3", "S4"),
-    symbolic="form kind (0..3), whether to_json_dict() is called between the two xml() calls (boolean), a 2-character label/title tracer",
-    bounds="xml() generated 3 times from the same survey object (translations, namespaces incl. entities, itext)",
-    weight=80,
-)
-def c14_regen(kind: int, dump_between: bool, l0: int, l1: int) -> bool:
+def c14_regen(kind: int, dump_between: bool, l0: int) -> bool:
     """
-    pre: 0 <= kind <= 3
-    pre: 33 <= l0 <= 126 and l0 != 36 and 33 <= l1 <= 126 and l1 != 36
-    post: _ == True
+    vpre: 97 <= l0 <= 122
+    vpost: _ == True
     """
-    wb = _form(kind, S(l0, l1))
+    wb = _form(kind, S(l0, 66))
     wb["survey"][0 if kind == 3 else 1]["label::L1"] = "B"
     survey, _w, _js = build_survey(wb)
     t1 = tree(survey.xml())
@@ -72,6 +61,20 @@ def c14_regen(kind: int, dump_between: bool, l0: int, l1: int) -> bool:
     t2 = tree(survey.xml())
     t3 = tree(survey.xml())
     return t1 == t2 and t2 == t3
+
+
+specialise(
+    "C14",
+    "b.regeneration",
+    c14_regen,
+    {"kind": [0, 1, 2, 3]},
+    timeout=400,
+    kernel=K[:5],
+    shims=("S1", "S3", "S4"),
+    symbolic="whether to_json_dict() is called between the xml() calls (boolean), a symbolic label/title character",
+    bounds="xml() generated 3 times from the same survey object (translations, namespaces incl. entities, itext); form kind fixed per instance",
+    weight=80,
+)
 
 
 def c14_history(target: int, h0: int, h1: int, l0: int) -> bool:
